@@ -1271,72 +1271,9 @@ impl<const N: u32> PxE1<{ N }> {
     }
 
     pub const fn from_pxe2<const M: u32>(p_a: PxE2<{ M }>) -> Self {
-        let mut ui_a = p_a.to_bits();
-
-        if (ui_a == 0x_8000_0000) || (ui_a == 0) {
-            return Self::from_bits(ui_a);
-        }
-
-        let sign = PxE2::<{ M }>::sign_ui(ui_a);
-        if sign {
-            ui_a = ui_a.wrapping_neg();
-        }
-
-        let u_z = if N == 2 {
-            if ui_a > 0 {
-                0x_4000_0000
-            } else {
-                0
-            }
-        } else {
-            let (k_a, tmp) = PxE2::<{ M }>::separate_bits_tmp(ui_a);
-
-            //exp and frac
-            let mut exp_frac32_a = tmp << 1;
-            let mut reg_a: u32;
-            let (reg_sa, regime) = if k_a < 0 {
-                reg_a = ((-k_a) << 1) as u32;
-                if (exp_frac32_a & 0x_8000_0000) != 0 {
-                    reg_a -= 1;
-                }
-                exp_frac32_a <<= 1;
-                (false, u32_zero_shr(0x_4000_0000, reg_a))
-            } else {
-                reg_a = ((k_a << 1) + 1) as u32;
-                if (exp_frac32_a & 0x_8000_0000) != 0 {
-                    reg_a += 1;
-                }
-                exp_frac32_a <<= 1;
-                (true, 0x_7fff_ffff - u32_zero_shr(0x_7fff_ffff, reg_a))
-            };
-            if reg_a > (N - 2) {
-                //max or min pos. exp and frac does not matter.
-                if reg_sa {
-                    0x_7FFF_FFFF & Self::mask()
-                } else {
-                    0x1 << (32 - N)
-                }
-            } else {
-                let bit_n_plus_one = ((exp_frac32_a >> (reg_a + 33 - N)) & 0x1) != 0;
-                let bits_more = exp_frac32_a & (0x_7FFF_FFFF >> (N - reg_a - 2));
-
-                if reg_a < 30 {
-                    exp_frac32_a >>= 2 + reg_a;
-                } else {
-                    exp_frac32_a = 0;
-                }
-                let mut u_z = regime + (exp_frac32_a & Self::mask());
-
-                if u_z == 0 {
-                    u_z = 0x1 << (32 - N);
-                } else if bit_n_plus_one {
-                    u_z += (((u_z >> (32 - N)) & 1) | bits_more) << (32 - N);
-                }
-                u_z
-            }
-        };
-
-        Self::from_bits(u32_with_sign(u_z, sign))
+        // A PxE2<M> is stored left-aligned in 32 bits, i.e. it IS the P32E2 pattern of the same value
+        // (the dedicated kernel mis-rounded for M >= 9 and overflowed its increment for M >= 21).
+        Self::from_p32e2(P32E2::from_bits(p_a.to_bits()))
     }
 
     #[inline]
